@@ -201,6 +201,13 @@ func execGE(_ *config, op string) string {
 			lat, lon, _, _ := g.Reverse(f[0], f[1], x, y)
 			x2, y2, _, _ := g.Forward(f[0], f[1], lat, lon)
 			out = hexFloats(x, y, azi, rk, lat, lon, x2, y2)
+		case "tr":
+			// the reverse order: plane coordinates -> position -> plane coordinates
+			f := parseFloats(toks[1:])
+			g := geo.NewGnomonic(geodesic.WGS84)
+			lat, lon, _, _ := g.Reverse(f[0], f[1], f[2], f[3])
+			x2, y2, _, _ := g.Forward(f[0], f[1], lat, lon)
+			out = hexFloats(lat, lon, x2, y2)
 		case "ix":
 			f := parseFloats(toks[1:11])
 			g := geo.NewGnomonic(geodesic.WGS84)
@@ -258,7 +265,7 @@ func genGE(cfg *config, r *rng, i int, s *sink) string {
 	case "C18":
 		kinds = []string{"dist", "dist", "dtl"}
 	case "C19":
-		kinds = []string{"meet", "sd", "rt", "rt", "ix", "ix", "scd", "atd"}
+		kinds = []string{"meet", "sd", "rt", "rt", "ix", "ix", "scd", "atd", "tr"}
 	}
 	kind := kinds[i%len(kinds)]
 	s.count("ge." + kind)
@@ -561,6 +568,22 @@ func genGE(cfg *config, r *rng, i int, s *sink) string {
 			s.count("ge.rt.centre")
 		}
 		var lat, lon float64
+		if r.chance(1, 15) {
+			// a point whose longitude differs from the centre's by exactly an eighth of a turn (or
+			// three): nothing special about it (recorded finding: the geodesic library's octant slip)
+			lat0 = math.Round((r.float01()*2-1)*60*8) / 8
+			lon0 = float64(r.intn(120) - 60)
+			lat = math.Round((lat0+(r.float01()*2-1)*25)*8) / 8
+			lon = lon0 + pick(r, []float64{45, -45, 135, -135})
+			if pick(r, []float64{0, 1}) == 1 && math.Abs(lon-lon0) == 135 {
+				lat0, lat = 60+lat0/10, 60+lat/10 // (three eighths of a turn apart stays inside the horizon only near a pole)
+			}
+			d := gcDistLL(lat0, lon0, lat, lon) * 6371008.8
+			if d < 8.5e6 {
+				s.count("ge.rt.eighth_turn")
+				return "rt " + hexFloats(lat0, lon0, lat, lon, d)
+			}
+		}
 		az := r.float01() * 360
 		if r.chance(1, 6) {
 			az = pick(r, []float64{0, 180, 90, 270})
@@ -572,6 +595,28 @@ func genGE(cfg *config, r *rng, i int, s *sink) string {
 		// not from the code under test)
 		geodesic.WGS84.GenInverse(lat0, lon0, lat, lon, nil, nil, nil, nil, &m12, nil, nil)
 		return "rt " + hexFloats(lat0, lon0, lat, lon, back, m12)
+	case "tr":
+		// plane coordinates about a centre: from a metre to several Earth radii from the origin (the
+		// whole plane is the image of the hemisphere), in any direction
+		lat0 := (r.float01()*2 - 1) * 89
+		lon0 := (r.float01()*2 - 1) * 180
+		if r.chance(1, 8) {
+			lat0 = pick(r, []float64{0, 90, -90, 45, 60})
+		}
+		rho := math.Pow(10, r.float01()*7.5)
+		az := r.float01() * 2 * math.Pi
+		x, y := rho*math.Sin(az), rho*math.Cos(az)
+		switch r.intn(10) {
+		case 0:
+			// on a diagonal of the plane, bit for bit (recorded finding: the geodesic library's octant slip)
+			y = pick(r, []float64{1, -1}) * x
+			s.count("ge.tr.diagonal")
+		case 1:
+			x = 0
+		case 2:
+			y = 0
+		}
+		return "tr " + hexFloats(lat0, lon0, x, y)
 	default: // ix
 		// two geodesic segments through a known point C at azimuths az1, az2 (crossing angle > 5 deg)
 		latC := (r.float01()*2 - 1) * 75
@@ -697,5 +742,11 @@ func corpusGE(cfg *config) []string {
 		// recorded finding: a latitude of exactly 45 degrees (the geodesic dependency's sincosdx)
 		"rt " + hexFloats(10, 20, 45, 85, 7269223.2),
 		"sd " + hexFloats(-84.145064, -84.145064),
+		// recorded findings: the same slip of the geodesic dependency at a longitude difference of
+		// exactly 45 degrees, and at an azimuth of exactly 45 degrees (a point on the plane's diagonal)
+		"rt " + hexFloats(48, 2, 50, 47, 3.3e6),
+		"rt " + hexFloats(10, 20, 30, 65, 5.2e6),
+		"tr " + hexFloats(48, 2, 1e6, 1e6),
+		"tr " + hexFloats(10, 20, 5e5, -5e5),
 	}...)
 }
